@@ -12,6 +12,7 @@
  *     rcb answers of the read callback in order, then NULL ("-" = no callback,
  *        "n" = callback registered that answers NULL at once)
  *     T  none | ct:<i> | mac:<i> | pwv | salt   (one byte of that region is flipped)
+ *     a list item r<count>x<hex> stands for <count> copies of <hex>
  * op  ref file=<path of a decoded reference archive> rp=L bs=N seek=0|1
  *
  * Output (one line): everything the property observes, nothing else.
@@ -41,7 +42,8 @@ static la_ssize_t r_read(struct archive *a, void *d, const void **b)
 }
 
 /* scripted passphrase callbacks */
-struct script { char *ans[64]; int n, i, calls; };
+#define MAXANS 20480
+struct script { char **ans; int n, i, calls; };
 static const char *pp_cb(struct archive *a, void *d)
 {
 	struct script *s = d; (void)a;
@@ -62,8 +64,12 @@ static int parse_list(const char *l, char **out, int max)
 	int n = 0;
 	if (strcmp(l, "-") == 0 || strcmp(l, "n") == 0) return 0;
 	char *c = strdup(l), *sv = NULL;
-	for (char *t = strtok_r(c, ",", &sv); t && n < max; t = strtok_r(NULL, ",", &sv))
-		out[n++] = hex2str(t);
+	for (char *t = strtok_r(c, ",", &sv); t && n < max; t = strtok_r(NULL, ",", &sv)) {
+		if (t[0] == 'r') {	/* r<count>x<hex>: the same answer <count> times */
+			char *x = strchr(t, 'x'); long cnt = strtol(t + 1, NULL, 10);
+			for (long k = 0; x && k < cnt && n < max; k++) out[n++] = hex2str(x + 1);
+		} else out[n++] = hex2str(t);
+	}
 	free(c);
 	return n;
 }
@@ -137,6 +143,7 @@ static void read_side(const unsigned char *img, size_t ilen, char **rp, int nrp,
     size_t bs, int seek, const unsigned char *body, size_t blen, int have_body)
 {
 	struct script rs; memset(&rs, 0, sizeof rs);
+	rs.ans = calloc(MAXANS, sizeof *rs.ans);
 	struct archive *r = archive_read_new();
 	archive_read_support_format_all(r);
 	archive_read_support_filter_all(r);
@@ -144,7 +151,7 @@ static void read_side(const unsigned char *img, size_t ilen, char **rp, int nrp,
 	for (int i = 0; i < nrp; i++) printf("%s%s", i ? "," : "", vh_st(archive_read_add_passphrase(r, rp[i])));
 	if (nrp == 0) printf("-");
 	if (strcmp(rcbs, "-") != 0) {
-		rs.n = parse_list(rcbs, rs.ans, 64);
+		rs.n = parse_list(rcbs, rs.ans, MAXANS);
 		archive_read_set_passphrase_callback(r, &rs, pp_cb);
 	}
 	struct rsrc src = { img, ilen, 0, bs ? bs : 1 };
@@ -176,16 +183,20 @@ static void read_side(const unsigned char *img, size_t ilen, char **rp, int nrp,
 			if (glen > (1u << 26)) { rst = -99; break; }
 		}
 		int he2 = archive_read_has_encrypted_entries(r);
-		printf(" | h=%s reg=%d sz=%lld he=%d/%d/%d de=%d me=%d r=%s n=%zu d=%016llx dense=%d", vh_st(st), isreg, esz,
+		printf(" | h=%s he=%d/%d/%d de=%d me=%d r=%s n=%zu d=%016llx dense=%d", vh_st(st),
 		    he0, he1, he2, de, me, vh_st(rst), glen, (unsigned long long)vh_fnv(got, glen), sane);
-		if (have_body) printf(" eq=%d", glen == blen && (glen == 0 || memcmp(got, body, glen) == 0));
-		printf(" crc=%08lx", (unsigned long)crc32(0, got ? got : (const unsigned char *)"", (unsigned)glen));
+		if (have_body) printf(" eq=%d cb=%d", glen == blen && (glen == 0 || memcmp(got, body, glen) == 0), rs.calls);
+		else {
+			const char *nm = archive_entry_pathname(ae);
+			printf(" reg=%d sz=%lld crc=%08lx name=", isreg, esz,
+			    (unsigned long)crc32(0, got ? got : (const unsigned char *)"", (unsigned)glen));
+			vh_puthex(nm ? nm : "", nm ? strlen(nm) : 0);
+		}
 		free(got);
-		if (rst == ARCHIVE_FATAL) { printf(" end=fatal he=%d", archive_read_has_encrypted_entries(r)); break; }
 	}
-	printf(" cbcalls=%d", rs.calls);
 	archive_read_free(r);
 	for (int i = 0; i < rs.n; i++) free(rs.ans[i]);
+	free(rs.ans);
 }
 
 static void op_rt(char **w, int n)
@@ -195,7 +206,7 @@ static void op_rt(char **w, int n)
 	size_t wc = strtoul(kv(w, n, "wc"), NULL, 10), bs = strtoul(kv(w, n, "bs"), NULL, 10);
 	int seek = atoi(kv(w, n, "seek"));
 	size_t blen = 0; unsigned char *body = make_body(kv(w, n, "body"), &blen);
-	struct script ws; memset(&ws, 0, sizeof ws);
+	struct script ws; memset(&ws, 0, sizeof ws); char *wans[1] = { NULL }; ws.ans = wans;
 
 	/* ---- write ---- */
 	struct archive *a = archive_write_new();
@@ -244,16 +255,7 @@ static void op_rt(char **w, int n)
 	}
 	printf(" lay=fl%d.m%d.s%d.cs%zu", L.ok ? (L.flags & 0x49) : -1, L.method, L.strength, L.csize);
 	char *rp[64]; int nrp = parse_list(rps, rp, 64);
-	char *ca[64]; int nca = parse_list(rcbs, ca, 64);
-	printf(" cand=");
-	if (nrp + nca == 0 || !hdr || L.data + hdr > g_alen) printf("-");
-	else for (int i = 0; i < nrp + nca; i++) {
-		const char *c = i < nrp ? rp[i] : ca[i - nrp];
-		int ok = (L.method == 99) ? aes_check(c, g_arch + L.data, salt_len, key_len, g_arch + L.data + salt_len)
-		    : trad_check(c, g_arch + L.data, (L.flags & 8) ? g_arch[11] : g_arch[17]);
-		putchar(ok ? '1' : '0');
-	}
-
+	char **ca = calloc(MAXANS, sizeof *ca); int nca = parse_list(rcbs, ca, MAXANS);
 	/* ---- tamper ---- */
 	if (strcmp(tamper, "none") != 0 && hdr && L.csize >= (size_t)(hdr + trail)) {
 		size_t ctlen = L.csize - hdr - trail, pos = (size_t)-1, i = 0;
@@ -265,11 +267,32 @@ static void op_rt(char **w, int n)
 		if (pos != (size_t)-1 && pos < g_alen) { g_arch[pos] ^= 0x40; printf(" tampered=1"); } else printf(" tampered=0");
 	} else printf(" tampered=0");
 
+	/* ---- per-candidate verification flags, recomputed here on the image as the
+	 * reader will see it: one flag per distinct candidate string, in order of first
+	 * appearance (listed ones first, then the callback's answers) ---- */
+	printf(" cand=");
+	{
+		const char *seen[64]; int nseen = 0;
+		if (hdr && L.data + hdr <= g_alen)
+			for (int i = 0; i < nrp + nca && nseen < 64; i++) {
+				const char *c = i < nrp ? rp[i] : ca[i - nrp];
+				int dup = 0;
+				for (int k = 0; k < nseen; k++) if (strcmp(seen[k], c) == 0) dup = 1;
+				if (dup) continue;
+				seen[nseen++] = c;
+				int ok = (L.method == 99) ? aes_check(c, g_arch + L.data, salt_len, key_len, g_arch + L.data + salt_len)
+				    : trad_check(c, g_arch + L.data, (L.flags & 8) ? g_arch[11] : g_arch[17]);
+				putchar(ok ? '1' : '0');
+			}
+		if (nseen == 0) putchar('-');
+	}
+
 	/* ---- read ---- */
 	read_side(g_arch, g_alen, rp, nrp, rcbs, bs, seek, body, blen, 1);
 	putchar('\n');
 	for (int i = 0; i < nrp; i++) free(rp[i]);
 	for (int i = 0; i < nca; i++) free(ca[i]);
+	free(ca);
 	free(wps); free(ws.ans[0]); free(body);
 }
 
